@@ -276,8 +276,10 @@ inline seq decode(unsigned len, unsigned code)
 // maximal sequence length: the quantifier's 6 in quick, 7 in thorough
 inline unsigned L() { return vf::tier(6U, 7U); }
 
+// all sequences up to maxlen; with `longer`, every partition adds a few seeded random sequences that are
+// 1..3 elements longer than the exhaustive bound (the only place where VERIF_SEED matters)
 template <class F>
-void for_seqs(std::string const &entry, unsigned maxlen, F const &f)
+void for_seqs(std::string const &entry, unsigned maxlen, F const &f, bool longer = false)
 {
   if (!vf::entry_enabled(entry))
     return;
@@ -289,6 +291,20 @@ void for_seqs(std::string const &entry, unsigned maxlen, F const &f)
     for (unsigned code = 0; code < n; ++code)
       if (vf::mine(idx++))
         f(decode(len, code));
+  }
+  if (longer)
+  {
+    vf::rng g(vf::seed_for(entry));
+    unsigned const count = vf::tier(3U, 12U);
+    for (unsigned i = 0; i < count; ++i)
+    {
+      unsigned const len = maxlen + 1U + static_cast<unsigned>(g.below(3));
+      seq s(len);
+      for (int &e : s)
+        e = static_cast<int>(g.below(3));
+      VF_COUNT("shape/seeded-longer-input");
+      f(s);
+    }
   }
 }
 
@@ -548,7 +564,8 @@ constexpr std::size_t tuple_max = 5;
 template <class... Cs, class F>
 void run(kinds<Cs...>, std::string const &entry, unsigned maxlen, F const &chk)
 {
-  for_seqs(entry, maxlen, [&](seq const &s) { (one<Cs>(s, chk), ...); });
+  for_seqs(
+      entry, maxlen, [&](seq const &s) { (one<Cs>(s, chk), ...); }, true);
 }
 template <class F>
 void run_statics(std::string const &entry, F const &chk)
@@ -1989,7 +2006,12 @@ void chk_map_lookup(seq const &s)
       auto const res = fcppt::container::get_or_insert_with_result(d2, k, [](int const kk) { return 1000 + kk; });
       VF_COUNT("observed/get_or_insert_with_result/calls");
       if (res.inserted() == (fi < 0))
+      {
         VF_COUNT("observed/get_or_insert_with_result/flag-true-iff-inserted");
+        vf::observation("get_or_insert_with_result(...).inserted() is true exactly when the element was inserted (as "
+                        "get_or_insert_result documents); the prose of get_or_insert_with_result says the opposite "
+                        "(documentation slip, observed only)");
+      }
       else
         VF_COUNT("observed/get_or_insert_with_result/flag-true-iff-found");
     }
@@ -2516,7 +2538,7 @@ void vf_slice_9()
     chk_generate_n<std::deque<int>>("->deque", s);
     chk_generate_n<std::set<int>>("->set", s);
     chk_generate_n<std::multiset<int>>("->multiset", s);
-  });
+  }, true);
   if (vf::entry_enabled("algorithm/repeat"))
   {
     vf::set_entry("algorithm/repeat");
@@ -2568,7 +2590,7 @@ void vf_slice_11()
     chk_map_iteration<std::map<int, int>>(s);
     chk_map_iteration<std::multimap<int, int>>(s);
     chk_map_iteration<std::unordered_map<int, int>>(s);
-  });
+  }, true);
 }
 #endif
 #if VF_IN_SLICE(12)
@@ -2631,7 +2653,7 @@ void vf_slice_13()
     chk_container_join_assoc<std::set<int>>("set", s);
     chk_container_join_assoc<std::multiset<int>>("multiset", s);
     chk_container_join_assoc<std::map<int, int>>("map", s);
-  });
+  }, true);
   run(kinds<k_vec, k_deque>{}, "container/at_optional", L(), LIFT(chk_at_optional));
   run_statics("container/at_optional", LIFT(chk_at_optional));
 }
@@ -2642,18 +2664,18 @@ void vf_slice_14()
   for_seqs("container/find_opt_mapped,get_or_insert", L(), [](seq const &s) {
     chk_map_lookup<std::map<int, int>>(s);
     chk_map_lookup<std::unordered_map<int, int>>(s);
-  });
+  }, true);
   for_seqs("container/key_set", L(), [](seq const &s) {
     chk_key_set<std::map<int, int>, std::set<int>>("map->set", s);
     chk_key_set<std::multimap<int, int>, std::set<int>>("multimap->set", s);
     chk_key_set<std::unordered_map<int, int>, std::unordered_set<int>>("unordered_map->unordered_set", s);
     chk_key_set<std::map<int, int>, std::multiset<int>>("map->multiset", s);
-  });
+  }, true);
   for_seqs("container/map_values_copy,map_values_ref", L(), [](seq const &s) {
     chk_map_values<std::map<int, int>>(s);
     chk_map_values<std::multimap<int, int>>(s);
     chk_map_values<std::unordered_map<int, int>>(s);
-  });
+  }, true);
   chk_set_ops(vf::tier(5U, 6U));
   // observed neighbours
   for_seqs("observed/container,range", 4, [](seq const &s) {
